@@ -119,8 +119,7 @@ instance (cfg : RangeCfg) (v : Obj) : Decidable (ValidRange cfg v) := by
 theorem nominate_ok_iff_admits (n : Nominator) (c : Obj) : nominate n c = .ok () ↔ Admits n c := by
   cases n <;> cases c <;> (try rename_i k _; cases k) <;>
     simp [nominate, Admits, Obj.isStr, Obj.isCandObj, Obj.isBlank, Obj.isIndividual, Obj.isElectionParty,
-      Obj.isCoalition, Obj.hasCandidacy] <;> (try (rename_i b _; cases b <;> simp)) <;>
-    (try (rename_i a b _; cases a <;> cases b <;> simp))
+      Obj.isCoalition, Obj.hasCandidacy]
 
 /-- and reports every other value of the grammar as a CandidateError -/
 theorem nominate_rejects_with_candidateError (n : Nominator) (c : Obj) (h : ¬ Admits n c) :
@@ -179,7 +178,7 @@ theorem boundMap_get_default :
         exact ih (fun p hp => h p (List.mem_cons_of_mem _ hp))
     simp [BoundMap.get, this]
   · intro m k b
-    simp [BoundMap.get, List.lookup_cons]
+    simp [BoundMap.get]
 
 /-! ## acceptance = validity -/
 
@@ -298,6 +297,414 @@ theorem validate_iff_valid_ranked_partial (cfg : RankedCfg) (v : Obj) (h : NoMut
 theorem validate_iff_valid_ranked_witness :
     ¬ (validateRanked ⟨Bounds.none, .all ⟨some 1, some 2⟩, .basic true⟩ (.tuple [.mset [.str 0, .str 1], .str 2]) = .ok ()
         ↔ ValidRanked ⟨Bounds.none, .all ⟨some 1, some 2⟩, .basic true⟩ (.tuple [.mset [.str 0, .str 1], .str 2])) := by
+  decide +kernel
+
+/-! ## score votes -/
+
+private theorem mem_candsOf {items : List Obj} {c : Obj} :
+    c ∈ candsOf items ↔ ∃ s, Obj.tuple [c, s] ∈ items := by
+  simp only [candsOf, pairsOf, List.mem_map, List.mem_filterMap]
+  constructor
+  · rintro ⟨⟨c', s⟩, ⟨it, hit, hp⟩, rfl⟩
+    exact ⟨s, by rw [← asPair_eq_some.1 hp]; exact hit⟩
+  · rintro ⟨s, hs⟩
+    exact ⟨(c, s), ⟨_, hs, rfl⟩, rfl⟩
+
+private theorem scoreItems_ok_iff_spec {nom : Nominator} {items : List Obj} :
+    scoreItems nom items = .ok () ↔
+      (∀ it ∈ items, it.asPair.isSome = true) ∧ (∀ c ∈ candsOf items, Admits nom c) := by
+  rw [scoreItems_ok_iff]
+  constructor
+  · intro h
+    refine ⟨?_, ?_⟩
+    · intro it hit
+      obtain ⟨c, s, rfl, _⟩ := h it hit
+      rfl
+    · intro c hc
+      obtain ⟨s, hs⟩ := mem_candsOf.1 hc
+      obtain ⟨c', s', he, hn⟩ := h _ hs
+      cases he
+      exact (nominate_ok_iff_admits _ _).1 hn
+  · rintro ⟨h1, h2⟩ it hit
+    have := h1 it hit
+    cases hp : it.asPair with
+    | none => rw [hp] at this; cases this
+    | some p =>
+      obtain ⟨c, s⟩ := p
+      have he := asPair_eq_some.1 hp
+      subst he
+      exact ⟨c, s, rfl, (nominate_ok_iff_admits _ _).2 (h2 c (mem_candsOf.2 ⟨s, hit⟩))⟩
+
+/-- the parent-class check accepts exactly the ballots satisfying the common rule of score votes -/
+theorem validateScoreBase_iff (cfg : ScoreCfg) (items : List Obj) :
+    validateScoreBase cfg (.fset items) = .ok () ↔ ValidScoreBase cfg items := by
+  simp only [validateScoreBase, ValidScoreBase]
+  rw [bind_ok_iff, bind_ok_iff, check_ok_iff, scoreItems_ok_iff_spec]
+  constructor
+  · rintro ⟨hN, ⟨hP, hA⟩, h⟩
+    have hh : hashableL (candsOf items) = true :=
+      hashableL_iff.2 (fun c hc => nominate_ok_hashable ((nominate_ok_iff_admits _ _).2 (hA c hc)))
+    have hlen : (candsOf items).length = items.length := by
+      simp only [candsOf, pairsOf, List.length_map]
+      clear h hh hA hN
+      induction items with
+      | nil => rfl
+      | cons it rest ih =>
+        have h1 := hP it List.mem_cons_self
+        cases hp : it.asPair with
+        | none => rw [hp] at h1; cases h1
+        | some p =>
+          simp only [List.filterMap_cons, hp, List.length_cons]
+          rw [ih (fun x hx => hP x (List.mem_cons_of_mem _ hx))]
+    simp only [hh, Bool.not_true, Bool.false_eq_true, if_false] at h
+    by_cases hd : (dedup (candsOf items)).length < items.length
+    · simp [hd] at h
+    · simp only [hd, if_false] at h
+      have hnd : (candsOf items).Nodup := (dedup_length_not_lt_iff _).1 (by rwa [hlen])
+      refine ⟨hP, hA, hnd, hN, ?_⟩
+      intro hact
+      simp only [hact, if_true] at h
+      cases hs : sumScores (scoresOf items) with
+      | none => rw [hs] at h; cases h
+      | some s =>
+        rw [hs] at h
+        obtain ⟨h1, rfl⟩ := sumScores_eq_some.1 hs
+        exact ⟨h1, check_ok_iff.1 h⟩
+  · rintro ⟨hP, hA, hnd, hN, hS⟩
+    refine ⟨hN, ⟨hP, hA⟩, ?_⟩
+    have hh : hashableL (candsOf items) = true :=
+      hashableL_iff.2 (fun c hc => nominate_ok_hashable ((nominate_ok_iff_admits _ _).2 (hA c hc)))
+    have hlen : (candsOf items).length = items.length := by
+      simp only [candsOf, pairsOf, List.length_map]
+      clear hh hA hN hnd hS
+      induction items with
+      | nil => rfl
+      | cons it rest ih =>
+        have h1 := hP it List.mem_cons_self
+        cases hp : it.asPair with
+        | none => rw [hp] at h1; cases h1
+        | some p =>
+          simp only [List.filterMap_cons, hp, List.length_cons]
+          rw [ih (fun x hx => hP x (List.mem_cons_of_mem _ hx))]
+    have hd : ¬ (dedup (candsOf items)).length < items.length := by
+      rw [← hlen]; exact (dedup_length_not_lt_iff _).2 hnd
+    simp only [hh, Bool.not_true, Bool.false_eq_true, if_false, hd]
+    by_cases hact : (cfg.sum.get items.length).active = true
+    · obtain ⟨h1, h2⟩ := hS hact
+      have := sumScores_eq_some.2 ⟨h1, rfl⟩
+      simp only [hact, if_true, this]
+      exact check_ok_iff.2 h2
+    · simp [hact]
+
+/-- **Enumerated score votes**, for every value and configuration. -/
+theorem validate_iff_valid_enumscore (cfg : EnumCfg) (v : Obj) :
+    validateEnumScore cfg v = .ok () ↔ ValidEnumScore cfg v := by
+  unfold validateEnumScore
+  rw [bind_ok_iff]
+  cases v with
+  | fset items =>
+    simp only [ValidEnumScore, validateScoreBase_iff, forEach_ok_iff]
+    constructor
+    · rintro ⟨h1, h2⟩
+      refine ⟨h1, fun s hs => ?_⟩
+      have := h2 s hs
+      by_contra hn
+      simp [hn] at this
+    · rintro ⟨h1, h2⟩
+      exact ⟨h1, fun s hs => by simp [h2 s hs]⟩
+  | _ => simp [validateScoreBase, ValidEnumScore]
+
+private theorem checkObj_ok_iff (b : Bounds) (s : Obj) : b.checkObj s = .ok () ↔ ScoreInRange b s := by
+  unfold ScoreInRange
+  cases s with
+  | num x =>
+    simp only [Bounds.checkObj, check_ok_iff, Obj.isNum, Obj.numVal, true_and]
+    constructor
+    · intro h _; exact h
+    · intro h
+      by_cases ha : b.active = true
+      · exact h ha
+      · obtain ⟨lo, hi⟩ := b
+        cases lo <;> cases hi <;> simp_all [Bounds.active]
+  | _ =>
+    simp only [Bounds.checkObj, Obj.isNum]
+    by_cases ha : b.active = true <;> simp [ha]
+
+/-- **Range votes**, for every value and configuration. -/
+theorem validate_iff_valid_range (cfg : RangeCfg) (v : Obj) :
+    validateRange cfg v = .ok () ↔ ValidRange cfg v := by
+  unfold validateRange
+  rw [bind_ok_iff]
+  cases v with
+  | fset items => simp only [ValidRange, validateScoreBase_iff, forEach_ok_iff, checkObj_ok_iff]
+  | _ => simp [validateScoreBase, ValidRange]
+
+/-! ## rejections are library errors -/
+
+private theorem library_of_ne (r : Res) (h : r ≠ .error .typeError) :
+    r = .ok () ∨ r = .error .voteError ∨ r = .error .candidateError := by
+  rcases res_cases r with h1 | ⟨e, h1⟩
+  · exact Or.inl h1
+  · cases e
+    · exact Or.inr (Or.inl h1)
+    · exact Or.inr (Or.inr h1)
+    · exact absurd h1 h
+
+/-- **Simple votes**: accepted, or CandidateError (every value, every nominator). -/
+theorem rejections_are_library_errors_simple (nom : Nominator) (v : Obj) :
+    validateSimple nom v = .ok () ∨ validateSimple nom v = .error .candidateError := by
+  rcases res_cases (validateSimple nom v) with h | ⟨e, h⟩
+  · exact Or.inl h
+  · right; rw [h, nominate_err h]
+
+/-- **Approval votes**: accepted, VoteError or CandidateError (every value, every configuration). -/
+theorem rejections_are_library_errors_approval (cfg : ApprovalCfg) (v : Obj) :
+    validateApproval cfg v = .ok () ∨ validateApproval cfg v = .error .voteError ∨
+      validateApproval cfg v = .error .candidateError := by
+  apply library_of_ne
+  intro h
+  cases v with
+  | fset xs =>
+    simp only [validateApproval] at h
+    rcases bind_err_iff.1 h with h1 | ⟨_, h1⟩
+    · obtain ⟨x, _, hx⟩ := forEach_err h1
+      cases nominate_err hx
+    · cases check_err h1
+  | _ => simp [validateApproval] at h
+
+/-- **Ranked votes**: accepted, VoteError or CandidateError, for every Python value (`v.wf`: members of a
+    real set are hashable) and every configuration.  This is what commit bf6d9dd established: a single
+    item at a rank passes the nominator before it is hashed. -/
+theorem rejections_are_library_errors_ranked (cfg : RankedCfg) (v : Obj) (hwf : v.wf = true) :
+    validateRanked cfg v = .ok () ∨ validateRanked cfg v = .error .voteError ∨
+      validateRanked cfg v = .error .candidateError := by
+  apply library_of_ne
+  intro h
+  cases v with
+  | tuple items =>
+    simp only [validateRanked] at h
+    cases hloop : rankedLoop cfg 0 items 0 [] with
+    | error e =>
+      rw [hloop] at h
+      simp only [Except.error.injEq] at h
+      subst h
+      rcases rankedLoop_err cfg items 0 0 [] _ hloop with h1 | h1 | ⟨_, r, hr, xs, hs, hx⟩
+      · cases h1
+      · cases h1
+      · have hrw : r.wf = true := wfL_iff.1 (by simpa [Obj.wf] using hwf) r hr
+        cases r <;> simp only [Obj.asSet, Option.some.injEq, reduceCtorEq] at hs
+        all_goals
+          subst hs
+          simp only [Obj.wf, Bool.and_eq_true] at hrw
+          rw [hrw.1.2] at hx
+          cases hx
+    | ok ta =>
+      obtain ⟨t, a⟩ := ta
+      rw [hloop] at h
+      simp only at h
+      rcases bind_err_iff.1 h with h1 | ⟨_, h1⟩
+      · cases check_err h1
+      · split at h1
+        · cases h1
+        · obtain ⟨x, _, hx⟩ := forEach_err h1
+          cases nominate_err hx
+  | _ => simp [validateRanked] at h
+
+/-- a TypeError can only come out of the parent-class check through `sum()` over a non-numeric score
+    under an active sum bound -/
+theorem scoreBase_typeError (cfg : ScoreCfg) (v : Obj) (h : validateScoreBase cfg v = .error .typeError) :
+    ∃ items, v = .fset items ∧ (cfg.sum.get items.length).active = true ∧
+      ∃ s ∈ scoresOf items, s.isNum = false := by
+  cases v with
+  | fset items =>
+    refine ⟨items, rfl, ?_⟩
+    simp only [validateScoreBase] at h
+    rcases bind_err_iff.1 h with h1 | ⟨_, h1⟩
+    · cases check_err h1
+    · rcases bind_err_iff.1 h1 with h2 | ⟨hok, h2⟩
+      · rcases scoreItems_err h2 with h3 | h3 <;> cases h3
+      · have hA := (scoreItems_ok_iff_spec.1 hok).2
+        have hh : hashableL (candsOf items) = true :=
+          hashableL_iff.2 (fun c hc => nominate_ok_hashable ((nominate_ok_iff_admits _ _).2 (hA c hc)))
+        simp only [hh, Bool.not_true, Bool.false_eq_true, if_false] at h2
+        split at h2
+        · cases h2
+        · split at h2
+          · rename_i hact
+            refine ⟨hact, ?_⟩
+            cases hs : sumScores (scoresOf items) with
+            | none => exact sumScores_eq_none.1 hs
+            | some s => rw [hs] at h2; cases check_err h2
+          · cases h2
+  | _ => simp [validateScoreBase] at h
+
+/-- no score is summed unless it is a number -/
+def ScoresNumericWhereSummed (cfg : ScoreCfg) : Obj → Prop
+  | .fset items => (cfg.sum.get items.length).active = true → ∀ s ∈ scoresOf items, s.isNum = true
+  | _ => True
+
+/-- no score is compared with a range bound unless it is a number -/
+def ScoresNumericWhereRanged (b : Bounds) : Obj → Prop
+  | .fset items => b.active = true → ∀ s ∈ scoresOf items, s.isNum = true
+  | _ => True
+
+/- FULL STATEMENT (false of the code, see the witness):
+     theorem rejections_are_library_errors_enumscore (cfg) (v) :
+       validateEnumScore cfg v ∈ {ok, error voteError, error candidateError}
+   `sum(scoring[1] for scoring in vote)` raises TypeError on a non-numeric score level. -/
+
+/-- **Enumerated score votes**: accepted, VoteError or CandidateError whenever no non-numeric score
+    meets an active sum bound. -/
+theorem rejections_are_library_errors_enumscore_partial (cfg : EnumCfg) (v : Obj)
+    (hnum : ScoresNumericWhereSummed cfg.base v) :
+    validateEnumScore cfg v = .ok () ∨ validateEnumScore cfg v = .error .voteError ∨
+      validateEnumScore cfg v = .error .candidateError := by
+  apply library_of_ne
+  intro h
+  unfold validateEnumScore at h
+  rcases bind_err_iff.1 h with h1 | ⟨_, h1⟩
+  · obtain ⟨items, rfl, hact, s, hs, hn⟩ := scoreBase_typeError _ _ h1
+    rw [hnum hact s hs] at hn
+    cases hn
+  · cases v with
+    | fset items =>
+      simp only at h1
+      obtain ⟨s, _, hs⟩ := forEach_err h1
+      split at hs <;> cases hs
+    | _ => simp at h1
+
+/-- `EnumScoreVoteValidator(['x','y'], sum_bounds=(0,5)).validate(frozenset({('a','x')}))` raises TypeError -/
+theorem rejections_are_library_errors_enumscore_witness :
+    validateEnumScore ⟨⟨Bounds.none, .all ⟨some 0, some 5⟩, .basic true⟩, [.str 6, .str 7]⟩
+      (.fset [.tuple [.str 0, .str 6]]) = .error .typeError := by
+  decide +kernel
+
+/- FULL STATEMENT (false of the code, see the witness):
+     theorem rejections_are_library_errors_range (cfg) (v) :
+       validateRange cfg v ∈ {ok, error voteError, error candidateError}
+   `value >= self.min_value` raises TypeError on a non-numeric score. -/
+
+/-- **Range votes**: accepted, VoteError or CandidateError whenever no non-numeric score meets an
+    active sum or range bound. -/
+theorem rejections_are_library_errors_range_partial (cfg : RangeCfg) (v : Obj)
+    (hsum : ScoresNumericWhereSummed cfg.base v) (hrange : ScoresNumericWhereRanged cfg.range v) :
+    validateRange cfg v = .ok () ∨ validateRange cfg v = .error .voteError ∨
+      validateRange cfg v = .error .candidateError := by
+  apply library_of_ne
+  intro h
+  unfold validateRange at h
+  rcases bind_err_iff.1 h with h1 | ⟨_, h1⟩
+  · obtain ⟨items, rfl, hact, s, hs, hn⟩ := scoreBase_typeError _ _ h1
+    rw [hsum hact s hs] at hn
+    cases hn
+  · cases v with
+    | fset items =>
+      simp only at h1
+      obtain ⟨s, hs, he⟩ := forEach_err h1
+      cases s with
+      | num x => cases check_err (by simpa [Bounds.checkObj] using he)
+      | _ =>
+        simp only [Bounds.checkObj] at he
+        split at he
+        · rename_i hact
+          have := hrange hact _ hs
+          simp [Obj.isNum] at this
+        · cases he
+    | _ => simp at h1
+
+/-- `RangeVoteValidator(range=(0,5)).validate(frozenset({('a','x')}))` raises TypeError -/
+theorem rejections_are_library_errors_range_witness :
+    validateRange ⟨⟨Bounds.none, .all Bounds.none, .basic true⟩, ⟨some 0, some 5⟩⟩
+      (.fset [.tuple [.str 0, .str 6]]) = .error .typeError := by
+  decide +kernel
+
+/-! ## the invalid-vote filter -/
+
+/-- validity under any of the five validators -/
+def Valid : Validator → Obj → Prop
+  | .simple nom => ValidSimple nom
+  | .approval cfg => ValidApproval cfg
+  | .ranked cfg => ValidRanked cfg
+  | .enumScore cfg => ValidEnumScore cfg
+  | .range cfg => ValidRange cfg
+
+instance (val : Validator) (v : Obj) : Decidable (Valid val v) := by
+  cases val <;> unfold Valid <;> (unfold ValidSimple; infer_instance)
+
+private theorem noMset_of_hashable (v : Obj) (h : v.hashable = true) : NoMutableSetRank v := by
+  cases v with
+  | tuple ranks =>
+    intro r hr xs he
+    subst he
+    have := hashableL_iff.1 (by simpa [Obj.hashable] using h) _ hr
+    simp [Obj.hashable] at this
+  | _ => trivial
+
+/-- for every hashable Python value (everything that can be a dictionary key) each of the five validators
+    accepts exactly the valid ballots -/
+theorem validate_iff_valid_key (val : Validator) (v : Obj) (hwf : v.wf = true) (hh : v.hashable = true) :
+    val.validate v = .ok () ↔ Valid val v := by
+  cases val with
+  | simple nom => exact validate_iff_valid_simple nom v
+  | approval cfg => exact validate_iff_valid_approval cfg v hwf
+  | ranked cfg => exact validate_iff_valid_ranked_partial cfg v (noMset_of_hashable v hh)
+  | enumScore cfg => exact validate_iff_valid_enumscore cfg v
+  | range cfg => exact validate_iff_valid_range cfg v
+
+/-- a dictionary of ballots: keys are real hashable Python values -/
+def KeysWF (votes : List (Obj × Rat)) : Prop := ∀ p ∈ votes, p.1.wf = true ∧ p.1.hashable = true
+
+/-- **Whenever the filter returns**, it has removed exactly the invalid ballots; the others keep their
+    order and their counts. -/
+theorem eliminator_ok_removes_exactly_rejected (val : Validator) (votes out : List (Obj × Rat))
+    (hk : KeysWF votes) (h : eliminate val.validate votes = .ok out) :
+    out = votes.filter (fun p => decide (Valid val p.1)) := by
+  rw [(eliminate_ok h).1]
+  apply List.filter_congr
+  intro p hp
+  have := validate_iff_valid_key val p.1 (hk p hp).1 (hk p hp).2
+  simp only [this]
+
+/- FULL STATEMENT (false of the code, see the witness):
+     theorem eliminator_removes_exactly_rejected (val) (votes) (hk : KeysWF votes) :
+       eliminate val.validate votes = .ok (votes.filter (fun p => Valid val p.1))
+   InvalidVoteEliminator.convert catches `VoteError` only: a ballot rejected with CandidateError (or
+   leaking a TypeError) makes the whole conversion raise. -/
+
+/-- **The filter removes exactly the rejected ballots and keeps all counts** whenever no ballot is
+    rejected with a CandidateError or leaks a TypeError. -/
+theorem eliminator_removes_exactly_rejected_partial (val : Validator) (votes : List (Obj × Rat))
+    (hk : KeysWF votes)
+    (hlib : ∀ p ∈ votes, val.validate p.1 ≠ .error .candidateError ∧ val.validate p.1 ≠ .error .typeError) :
+    eliminate val.validate votes = .ok (votes.filter (fun p => decide (Valid val p.1))) := by
+  have h : ∀ p ∈ votes, val.validate p.1 = .ok () ∨ val.validate p.1 = .error .voteError := by
+    intro p hp
+    rcases library_of_ne _ (hlib p hp).2 with h1 | h1 | h1
+    · exact Or.inl h1
+    · exact Or.inr h1
+    · exact absurd h1 (hlib p hp).1
+  have h2 := eliminate_of_library_errors h
+  rw [h2]
+  exact congrArg _ (eliminator_ok_removes_exactly_rejected val votes _ hk h2)
+
+/-- when the filter raises, the exception is the CandidateError / TypeError of one of the ballots -/
+theorem eliminator_raises_only_escaped_errors (val : Validator) (votes : List (Obj × Rat)) (e : Rej)
+    (h : eliminate val.validate votes = .error e) :
+    ∃ p ∈ votes, val.validate p.1 = .error e ∧ (e = .candidateError ∨ e = .typeError) := by
+  obtain ⟨p, hp, h1, h2⟩ := eliminate_err h
+  refine ⟨p, hp, h1, ?_⟩
+  cases e
+  · exact absurd rfl h2
+  · exact Or.inl rfl
+  · exact Or.inr rfl
+
+/-- `InvalidVoteEliminator(SimpleVoteValidator(PersonNominator())).convert({Person('I0'): 2, 'a': 1})`
+    raises CandidateError instead of returning `{Person('I0'): 2}` -/
+theorem eliminator_removes_exactly_rejected_witness :
+    eliminate (Validator.simple (.person true true)).validate [(.cand .personIndep 0, 2), (.str 0, 1)]
+        = .error .candidateError
+    ∧ [(Obj.cand .personIndep 0, (2 : Rat)), (.str 0, 1)].filter
+        (fun p => decide (Valid (Validator.simple (.person true true)) p.1)) = [(.cand .personIndep 0, 2)] := by
   decide +kernel
 
 end VL.C20
